@@ -1,7 +1,8 @@
 // C05 — Per-node sequence numbers are consecutive in wire order under any interleaving.
 //
 // Domain: debug-mode session; 2..6 application threads sending generated lists of messages
-// to shared and private nodes (zero-response messages and requests that exhaust the
+// (with and without data bytes: the library has one constructor for each) to shared and private nodes
+// (zero-response messages and requests that exhaust the
 // response budget, so that some messages are deferred and later released by the receiver
 // thread when the harness injects the answers); optional single-threaded prologue that puts
 // a node's counter just below the 255 -> 1 wrap; auto-flush or explicit flushes; generated
@@ -20,7 +21,7 @@ namespace {
 
 struct Snd {
 	uint8_t node;     // index into nodes
-	uint8_t kind;     // 0 mirror_occ (no response), 1 sys_ping (response 5), 2 node_changed_ack, 3 flush
+	uint8_t kind;     // 0 mirror_occ (no response), 1 sys_ping (response 5), 2 node_changed_ack, 3 flush, 4 cs_allocate / boost_query (no data bytes)
 	uint8_t val;
 };
 struct Plan {
@@ -43,6 +44,7 @@ void run_op(const Snd &o, const std::vector<ref::Bytes> &nodes) {
 	case 0: bidib_send_bm_mirror_occ(n, o.val, 0); break;
 	case 1: bidib_send_sys_ping(n, o.val, 0); break;
 	case 2: bidib_send_node_changed_ack(n, o.val, 0); break;
+	case 4: if (o.val & 1) bidib_send_cs_allocate(n, 0); else bidib_send_boost_query(n, 0); break;      // the constructor without data bytes (no response / response 5)
 	default: bidib_flush(); break;
 	}
 }
@@ -82,11 +84,11 @@ void prop(DP &dp, const ref::Bytes &sched, Ctx &ctx) {
 		for (unsigned i = 0; i < n; i++) {
 			Snd o;
 			o.node = (uint8_t) dp.pick(nnodes);
-			o.kind = (uint8_t) dp.weighted({8, 5, 3, 1});
+			o.kind = (uint8_t) dp.weighted({8, 5, 3, 1, 5});
 			o.val = dp.u8();
 			plans[t].ops.push_back(o);
-			if (o.kind < 3) { node_threads[o.node].insert(t); total++; }
-			ctx.desc << " " << "opaf"[o.kind] << (int) o.node;
+			if (o.kind != 3) { node_threads[o.node].insert(t); total++; }
+			ctx.desc << " " << "opafe"[o.kind] << (int) o.node;
 		}
 		ctx.desc << "\n";
 	}
@@ -108,6 +110,14 @@ void prop(DP &dp, const ref::Bytes &sched, Ctx &ctx) {
 				m.seq = s.next_up_seq(nodes[n]);
 				m.data = {0};
 				s.inject_packet({m});
+				if (j % 2 == 0) {      // and the answer to a boost query
+					ref::Msg b;
+					b.addr = nodes[n];
+					b.type = M::BOOST_STAT;
+					b.seq = s.next_up_seq(nodes[n]);
+					b.data = {0};
+					s.inject_packet({b});
+				}
 			}
 	};
 	int guard = 0;
